@@ -14,7 +14,7 @@ import (
 
 func init() {
 	props["C12"] = &propDef{
-		rule: "cases = generated fragmented files: 1..3 tracks (video and/or audio, any order), 1..6 segments x 1..4 fragments, 8- or 16-byte mdat headers, decoded through the io.Reader or the slice-reader path, delimiters {none, styp per segment, top-level sidx (version 0/1, with/without a free box after it, with the 8- or the 16-byte largesize box header, with 0..12 trailing bytes inside the box), references spread over 2..4 top-level sidx boxes in front of the media (1..3 references each, now and then an empty box; with/without a parent sidx of reference_type 1 entries in front of them), mfra/tfra with the ISM flag, start-on-moof flag}, emsg boxes before fragments, zero/non-zero composition offset on the first sample; checks: grouping of moof/mdat pairs into segments (for sidx-delimited files also with one field of the index disturbed: model vs code only), segment-mode re-encoding byte-identical, and after UpdateSidx(add/not, zero/non-zero EPT) + Encode the index tiles the media (each reference starts at its segment's first byte, ends at the end of the media, durations = summed durations of the reference track); plus the examples/add-sidx binary (built into $VERIF_BUILD/tools/add-sidx) on files of the same family written to disk, three quarters of them with saiz+saio+senc (with/without sub-samples) or PIFF uuid-senc boxes in the trafs of some or all tracks, x options {-removeEnc, -nzEPT, -startSegOnMoof}: the index in the written file is checked against the top-level boxes of the written file (same tiling/duration/EPT clauses; init, mdat and - without -removeEnc - moof boxes byte-identical and in order); non-trivial = distinct file with >= 2 segments, or distinct successful tool run",
+		rule: "cases = generated fragmented files: 1..3 tracks (video and/or audio, any order), 1..6 segments x 1..4 fragments, 8- or 16-byte mdat headers, decoded through the io.Reader or the slice-reader path, delimiters {none, styp per segment, top-level sidx (version 0/1, with/without a free box after it, with the 8- or the 16-byte largesize box header, with 0..12 trailing bytes inside the box), references spread over 2..4 top-level sidx boxes in front of the media (1..3 references each, now and then an empty box; with/without a parent sidx of reference_type 1 entries in front of them), mfra/tfra with the ISM flag, start-on-moof flag}, emsg boxes before fragments, zero/non-zero composition offset on the first sample; checks: grouping of moof/mdat pairs into segments (for sidx-delimited files also with one field of the index disturbed: model vs code only), segment-mode re-encoding byte-identical, and after UpdateSidx(add/not, zero/non-zero EPT) + Encode the index tiles the media (each reference starts at its segment's first byte, ends at the end of the media, durations = summed durations of the reference track); plus the examples/add-sidx binary (built into $VERIF_BUILD/tools/add-sidx) on files of the same family written to disk, three quarters of them with saiz+saio+senc (with/without sub-samples) or PIFF uuid-senc boxes in the trafs of some or all tracks, x options {-removeEnc, -nzEPT, -startSegOnMoof}: the index in the written file is checked against the top-level boxes of the written file (same tiling/duration/EPT clauses; init, mdat and - without -removeEnc - moof boxes byte-identical and in order); plus histories (upd): files of the same family, decoded or assembled box by box through File.AddChild, x {segment mode, box-tree mode (FragEncMode set before or after UpdateSidx)} x {Encode, EncodeSW} x UpdateSidx(add/not, zero/non-zero EPT); boundary members: no index yet and the first segment opening with emsg / moof / styp / styp+emsg x both modes x {decoded, start-on-moof or slice reader, assembled, EncodeSW}; in segment mode three quarters are first modified through the public API: Fragment.AddEmsg (1..3 boxes; first / middle / last fragment of first / middle / last segment as boundary members), Fragment.AddChild (emsg, free, skip), MediaSegment.AddFragment (new fragment with prft and/or emsg boxes in front), File.AddMediaSegment (with/without styp) + AddFragment, Styp set on a segment; oracle on the written bytes only (independent walker): index = first top-level sidx, segment i = the next n_i top-level media boxes, references tile them (start of each, end of media, durations, EPT); UpdateSidx/Encode error returns on modified files are counted, not failed; model correspondence (usidx): referenced sizes, first_offset and the place of a new index among the top-level boxes after the same operations (box sizes handed over in the request, confirmed by the harness); non-trivial = distinct file with >= 2 segments, or distinct successful tool run",
 		gen:  genC12,
 		exec: execC12,
 	}
@@ -121,6 +121,14 @@ type ffBuilt struct {
 	sidxSize   int
 	nSidx      int        // number of top-level sidx boxes written (they are adjacent, sidxSize covers them all)
 	fragRefDur [][]uint64 // per segment per fragment: summed durations of the reference track's samples
+	init       *mp4.InitSegment
+	objs       [][]ffObj // per segment per fragment: the library objects the bytes were written from
+	refTrack   int
+}
+
+type ffObj struct {
+	emsg *mp4.EmsgBox
+	frag *mp4.Fragment
 }
 
 func box(typ string, payload []byte) []byte {
@@ -160,7 +168,7 @@ func buildFF(s *ffSpec) (*ffBuilt, error) {
 			}
 		}
 	}
-	out := &ffBuilt{}
+	out := &ffBuilt{init: init, refTrack: refTrack}
 	next := map[int]uint64{}
 	cnt := map[int]int{}
 	ids := make([]uint32, len(s.media))
@@ -182,13 +190,16 @@ func buildFF(s *ffSpec) (*ffBuilt, error) {
 		}
 		var dur uint64
 		var frd []uint64
+		var objs []ffObj
 		for _, fr := range sg {
 			var fdur uint64
+			var ob ffObj
 			if fr.emsg {
 				var eb bytes.Buffer
 				e := &mp4.EmsgBox{Version: 1, TimeScale: 90000, PresentationTime: 5, EventDuration: 9, ID: seq, SchemeIDURI: "urn:y", Value: "1", MessageData: []byte{7, 7}}
 				_ = e.Encode(&eb)
 				sb.b = append(sb.b, eb.Bytes()...)
+				ob.emsg = e
 			}
 			f, err := mp4.CreateMultiTrackFragment(seq, ids)
 			if err != nil {
@@ -226,7 +237,10 @@ func buildFF(s *ffSpec) (*ffBuilt, error) {
 			}
 			sb.moofOff = append(sb.moofOff, len(sb.b))
 			sb.b = append(sb.b, fb.Bytes()...)
+			ob.frag = f
+			objs = append(objs, ob)
 		}
+		out.objs = append(out.objs, objs)
 		out.refDur = append(out.refDur, dur)
 		out.fragRefDur = append(out.fragRefDur, frd)
 		segs = append(segs, sb)
@@ -434,6 +448,28 @@ func execC12(req string) string {
 		})
 		if p != "" {
 			return "panic"
+		}
+		return out
+	}
+	if strings.HasPrefix(req, "usidx ") {
+		var out string
+		if p := safe(func() { out = execUsidx(req) }); p != "" {
+			return "panic"
+		}
+		return out
+	}
+	if strings.HasPrefix(req, "upd ") {
+		var out string
+		p := safe(func() {
+			u := parseUpd(req)
+			if u == nil {
+				out = "bad-request"
+				return
+			}
+			out = updAnswer(runUpd(u))
+		})
+		if p != "" {
+			return p
 		}
 		return out
 	}
@@ -826,6 +862,7 @@ func genC12(c *Ctx) {
 		}
 	}
 	genAddSidx(c)
+	genUpd(c)
 }
 
 // independent check of the written index against the written media
@@ -1337,6 +1374,777 @@ func genAddSidx(c *Ctx) {
 		checkAddSidx(c, j)
 		if len(c.St.Samples) < 5 && j.tr.exit == 0 {
 			c.Sample(j.req)
+		}
+	}
+}
+
+// ---------- histories: a decoded (or API-assembled) file is modified through the public API, then UpdateSidx + Encode
+//
+// upd <dec|api> <seg|tree> <w|sw> <add><nz> <ops|-> | ffile ...
+//   dec: the generated bytes are decoded; api: the same boxes (library objects) are handed to File.AddChild one by one,
+//   the way examples/resegmenter assembles its output. seg|tree: FragEncMode. w|sw: Encode / EncodeSW.
+//   ops (comma separated, kind:segment:fragment:argument, indices into the decoded partition):
+//     ae:s:f:l1+l2..   Fragment.AddEmsg, one emsg per length (message data bytes)
+//     ac:s:f:T.len     Fragment.AddChild of an emsg (T=e), free (T=f) or skip (T=k) box
+//     af:s:0:L/t.d.z+… MediaSegment.AddFragment of a new fragment: L = boxes put in front of its moof with AddChild
+//                      (p prft, e emsg, - none), samples track.duration.size
+//     as:0:0:S         File.AddMediaSegment of a new empty segment, S=1 with styp (NewMediaSegment)
+//     st:s:0:-         the segment gets a styp box (field Styp)
+// The oracle reads the written bytes only: top-level boxes from the independent walker, the index = first top-level
+// sidx, segment i = the next nbox[i] media boxes.
+
+type updOp struct {
+	kind      string
+	seg, frag int
+	arg       string
+}
+
+type updSpec struct {
+	s       *ffSpec
+	src     string
+	tree    bool
+	late    bool // box-tree mode chosen after UpdateSidx (FragEncMode is a field of File) instead of before
+	sw      bool
+	add, nz bool
+	ops     []updOp
+}
+
+func (u *updSpec) line() string {
+	var o []string
+	for _, x := range u.ops {
+		o = append(o, fmt.Sprintf("%s:%d:%d:%s", x.kind, x.seg, x.frag, x.arg))
+	}
+	ops := "-"
+	if len(o) > 0 {
+		ops = strings.Join(o, ",")
+	}
+	mode, wr := "seg", "w"
+	if u.tree {
+		mode = "tree"
+		if u.late {
+			mode = "treel"
+		}
+	}
+	if u.sw {
+		wr = "sw"
+	}
+	return fmt.Sprintf("upd %s %s %s %s%s %s | %s", u.src, mode, wr, b01(u.add), b01(u.nz), ops, u.s.line())
+}
+
+func parseUpd(req string) *updSpec {
+	i := strings.Index(req, "ffile ")
+	if i < 0 {
+		return nil
+	}
+	w := strings.Fields(req[:i])
+	if len(w) < 6 || len(w[4]) != 2 {
+		return nil
+	}
+	u := &updSpec{s: parseFF(req[i:]), src: w[1], tree: strings.HasPrefix(w[2], "tree"), late: w[2] == "treel", sw: w[3] == "sw", add: w[4][0] == '1', nz: w[4][1] == '1'}
+	if w[5] != "-" {
+		for _, o := range strings.Split(w[5], ",") {
+			x := strings.SplitN(o, ":", 4)
+			if len(x) != 4 {
+				return nil
+			}
+			u.ops = append(u.ops, updOp{x[0], atoi(x[1]), atoi(x[2]), x[3]})
+		}
+	}
+	return u
+}
+
+// mseg: what the harness knows of one media segment: how many top-level boxes it is written as, how many fragments
+// it holds, the summed sample durations of the reference track.
+type mseg struct {
+	nbox, nfrag int
+	styp        bool
+	dur         uint64
+}
+
+// expectedMsegs: the partition of the generated file (the delimiters present decide, as in expectedGrouping).
+// b == nil: shape only (durations 0). ok=false: combination without a defined partition (styp and start-on-moof).
+func expectedMsegs(s *ffSpec, b *ffBuilt) (segs []mseg, ok bool) {
+	if s.flagSOM && s.delim == "styp" {
+		return nil, false
+	}
+	perFrag := s.flagSOM && s.delim == "none"
+	for si, sg := range s.segs {
+		cur := mseg{}
+		if s.delim == "styp" {
+			cur.nbox, cur.styp = 1, true
+		}
+		for fi, fr := range sg {
+			n, d := 2, uint64(0)
+			if fr.emsg {
+				n++
+			}
+			if b != nil {
+				d = b.fragRefDur[si][fi]
+			}
+			if perFrag {
+				segs = append(segs, mseg{nbox: n, nfrag: 1, dur: d})
+			} else {
+				cur.nbox, cur.nfrag, cur.dur = cur.nbox+n, cur.nfrag+1, cur.dur+d
+			}
+		}
+		if !perFrag {
+			segs = append(segs, cur)
+		}
+	}
+	if !perFrag && s.delim == "none" {
+		all := mseg{}
+		for _, x := range segs {
+			all.nbox, all.nfrag, all.dur = all.nbox+x.nbox, all.nfrag+x.nfrag, all.dur+x.dur
+		}
+		segs = []mseg{all}
+	}
+	return segs, true
+}
+
+func updEmsg(n, id int) *mp4.EmsgBox {
+	return &mp4.EmsgBox{Version: byte(n % 2), TimeScale: 90000, PresentationTimeDelta: 3, PresentationTime: 7, EventDuration: 11, ID: uint32(id), SchemeIDURI: "urn:z", Value: "2", MessageData: bytes.Repeat([]byte{0x5a}, n)}
+}
+
+// assembleFF hands the boxes of the generated file to File.AddChild one by one (positions 0, as the resegmenter does).
+func assembleFF(s *ffSpec, b *ffBuilt) *mp4.File {
+	f := mp4.NewFile()
+	f.AddChild(b.init.Ftyp, 0)
+	f.AddChild(b.init.Moov, 0)
+	for si := range s.segs {
+		if s.delim == "styp" {
+			f.AddChild(mp4.CreateStyp(), 0)
+		}
+		for _, o := range b.objs[si] {
+			if o.emsg != nil {
+				f.AddChild(o.emsg, 0)
+			}
+			for _, ch := range o.frag.GetChildren() {
+				f.AddChild(ch, 0)
+			}
+		}
+	}
+	return f
+}
+
+type updResult struct {
+	status string // ok | skip:<why> | <fingerprint kind> on failure
+	what   string
+	got    string
+	exp    string
+	out    []byte
+	segs   []mseg
+	index  bool // a top-level index is expected in the output
+	ept    uint64
+	in     []byte   // the generated file
+	sized  []string // per operation: what the boxes handed to the library measure (Size()), for the model
+}
+
+// applyUpdOps applies the operations to the file and to the harness's record of its segments. sized[k]: the sizes of
+// the boxes operation k handed to the library.
+func applyUpdOps(f *mp4.File, ops []updOp, nTracks, refTrack int, segs []mseg) (out []mseg, sized []string, status string) {
+	ids := make([]uint32, nTracks)
+	for i := range ids {
+		ids[i] = uint32(i + 1)
+	}
+	for k, o := range ops {
+		if o.kind == "as" {
+			if o.arg == "1" {
+				ms := mp4.NewMediaSegment()
+				f.AddMediaSegment(ms)
+				segs = append(segs, mseg{nbox: 1, styp: true})
+				sized = append(sized, fmt.Sprint(ms.Styp.Size()))
+			} else {
+				f.AddMediaSegment(mp4.NewMediaSegmentWithoutStyp())
+				segs = append(segs, mseg{})
+				sized = append(sized, "0")
+			}
+			continue
+		}
+		if o.seg < 0 || o.seg >= len(segs) || o.seg >= len(f.Segments) {
+			return nil, nil, "skip:operation out of range"
+		}
+		sg := f.Segments[o.seg]
+		m := &segs[o.seg]
+		switch o.kind {
+		case "ae", "ac":
+			if o.frag < 0 || o.frag >= len(sg.Fragments) {
+				return nil, nil, "skip:operation out of range"
+			}
+			fr := sg.Fragments[o.frag]
+			if o.kind == "ae" {
+				var z []string
+				for j, l := range strings.Split(o.arg, "+") {
+					e := updEmsg(atoi(l), 1000+10*k+j)
+					fr.AddEmsg(e)
+					m.nbox++
+					z = append(z, fmt.Sprint(e.Size()))
+				}
+				sized = append(sized, strings.Join(z, "+"))
+			} else {
+				x := strings.SplitN(o.arg, ".", 2)
+				if len(x) != 2 {
+					return nil, nil, "skip:bad operation"
+				}
+				var bx mp4.Box
+				switch x[0] {
+				case "e":
+					bx = updEmsg(atoi(x[1]), 2000+k)
+				case "f":
+					bx = mp4.NewFreeBox(make([]byte, atoi(x[1])))
+				default:
+					bx = mp4.NewSkipBox(make([]byte, atoi(x[1])))
+				}
+				fr.AddChild(bx)
+				m.nbox++
+				sized = append(sized, fmt.Sprint(bx.Size()))
+			}
+		case "af":
+			x := strings.SplitN(o.arg, "/", 2)
+			if len(x) != 2 {
+				return nil, nil, "skip:bad operation"
+			}
+			nf, err := mp4.CreateMultiTrackFragment(uint32(5000+k), ids)
+			if err != nil {
+				return nil, nil, "skip:" + err.Error()
+			}
+			dec := uint64(1000000 * (k + 1))
+			for j, sp := range strings.Split(x[1], "+") {
+				w := strings.Split(sp, ".")
+				if len(w) != 3 || atoi(w[0]) < 1 || atoi(w[0]) > len(ids) {
+					return nil, nil, "skip:bad operation"
+				}
+				t, d, z := atoi(w[0]), uint32(atoi(w[1])), uint32(atoi(w[2]))
+				fl := uint32(0x01010000)
+				if j == 0 {
+					fl = 0x02000000
+				}
+				if err := nf.AddFullSampleToTrack(mp4.FullSample{Sample: mp4.Sample{Flags: fl, Dur: d, Size: z}, DecodeTime: dec, Data: sampleData(t, 100+j, z)}, uint32(t)); err != nil {
+					return nil, nil, "skip:" + err.Error()
+				}
+				dec += uint64(d)
+				if t == refTrack {
+					m.dur += uint64(d)
+				}
+			}
+			var z []string
+			if lead := strings.Trim(x[0], "-"); lead != "" {
+				af := mp4.NewFragment()
+				for _, l := range lead {
+					var bx mp4.Box
+					if l == 'p' {
+						bx = mp4.CreatePrftBox(1, 0, uint32(refTrack), mp4.NTP64(0x83aa7e8000000000+uint64(k)), dec)
+					} else {
+						bx = updEmsg(5+k, 3000+k)
+					}
+					af.AddChild(bx)
+					m.nbox++
+					z = append(z, fmt.Sprintf("%c.%d", l, bx.Size()))
+				}
+				af.AddChild(nf.Moof)
+				af.AddChild(nf.Mdat)
+				nf = af
+			}
+			z = append(z, fmt.Sprintf("m.%d", nf.Moof.Size()), fmt.Sprintf("d.%d", nf.Mdat.Size()))
+			sg.AddFragment(nf)
+			m.nbox, m.nfrag = m.nbox+2, m.nfrag+1
+			sized = append(sized, strings.Join(z, "+"))
+		case "st":
+			if sg.Styp == nil && !m.styp {
+				sg.Styp = mp4.CreateStyp()
+				m.nbox, m.styp = m.nbox+1, true
+				sized = append(sized, fmt.Sprint(sg.Styp.Size()))
+			} else {
+				sized = append(sized, "0")
+			}
+		default:
+			return nil, nil, "skip:bad operation"
+		}
+	}
+	return segs, sized, ""
+}
+
+// runUpd: build, decode/assemble, apply the operations, UpdateSidx, encode.
+func runUpd(u *updSpec) (res updResult) {
+	s := u.s
+	b, err := buildFF(s)
+	if err != nil {
+		return updResult{status: "build", what: "cannot build file", got: err.Error()}
+	}
+	segs, ok := expectedMsegs(s, b)
+	if !ok {
+		return updResult{status: "skip:no defined partition"}
+	}
+	var f *mp4.File
+	if u.src == "api" {
+		if s.delim != "none" && s.delim != "styp" || s.flagSOM {
+			return updResult{status: "skip:api source with decode-only delimiters"}
+		}
+		f = assembleFF(s, b)
+	} else {
+		f, err = decodeFF(s, b)
+		if err != nil {
+			return updResult{status: "decode", what: "generated fragmented file does not decode", got: err.Error()}
+		}
+	}
+	var gt, wt []string
+	for _, sg := range f.Segments {
+		gt = append(gt, fmt.Sprint(len(sg.Fragments)))
+	}
+	for _, m := range segs {
+		wt = append(wt, fmt.Sprint(m.nfrag))
+	}
+	if strings.Join(gt, ",") != strings.Join(wt, ",") {
+		return updResult{status: "grouping", what: "moof/mdat pairs are not grouped into segments according to the delimiters present (fragments per segment)", got: strings.Join(gt, ","), exp: strings.Join(wt, ",")}
+	}
+	segs, sized, st := applyUpdOps(f, u.ops, len(s.media), b.refTrack, segs)
+	if st != "" {
+		return updResult{status: st}
+	}
+	res.segs, res.ept, res.sized = segs, b.refEPT, sized
+	if u.src == "dec" {
+		res.in = b.bytes
+	}
+	strict := len(u.ops) == 0 // an error return promises nothing; the unmodified file must go through, though
+	if u.tree && !u.late {
+		f.FragEncMode = mp4.EncModeBoxTree
+	}
+	if err := f.UpdateSidx(u.add, u.nz); err != nil {
+		res.status = "skip:UpdateSidx error on a modified file"
+		if strict {
+			res.status, res.what, res.got = "updatesidx", "UpdateSidx fails", err.Error()
+		}
+		return res
+	}
+	if u.tree {
+		f.FragEncMode = mp4.EncModeBoxTree
+	}
+	var out []byte
+	if u.sw {
+		sw := bits.NewFixedSliceWriter(2*len(b.bytes) + 65536)
+		err = f.EncodeSW(sw)
+		if err == nil {
+			err = sw.AccError()
+		}
+		out = sw.Bytes()
+	} else {
+		var ob bytes.Buffer
+		err = f.Encode(&ob)
+		out = ob.Bytes()
+	}
+	if err != nil {
+		res.status = "skip:encode error on a modified file"
+		if strict {
+			res.status, res.what, res.got = "updatesidx-encode", "encode after UpdateSidx fails", err.Error()
+		}
+		return res
+	}
+	res.status, res.out = "ok", out
+	res.index = u.add || s.delim == "sidx0" || s.delim == "sidx1"
+	return res
+}
+
+// usidx <startOnMoof> <ism> <add> <ops|-> <hex>: the bytes are decoded, the operations applied (kind:seg:frag:recipe/sizes,
+// the sizes confirmed), UpdateSidx(add, false); answer = what it computed: referenced sizes, first_offset, and for a new
+// index its place among the top-level boxes.
+func execUsidx(req string) string {
+	w := strings.Fields(req)
+	if len(w) != 6 {
+		return "bad-request"
+	}
+	d, err := unhx(w[5])
+	if err != nil {
+		return "bad-request"
+	}
+	var flags mp4.DecFileFlags
+	if w[1] == "1" {
+		flags |= mp4.DecStartOnMoof
+	}
+	if w[2] == "1" {
+		flags |= mp4.DecISMFlag
+	}
+	var opts []mp4.Option
+	if flags != 0 {
+		opts = append(opts, mp4.WithDecodeFlags(flags))
+	}
+	f, err := mp4.DecodeFile(bytes.NewReader(d), opts...)
+	if err != nil {
+		return "dec-err"
+	}
+	if f.Moov == nil || len(f.Moov.Traks) == 0 {
+		return "no-init"
+	}
+	var ops []updOp
+	var given []string
+	if w[4] != "-" {
+		for _, o := range strings.Split(w[4], ",") {
+			x := strings.SplitN(o, ":", 4)
+			i := -1
+			if len(x) == 4 {
+				i = strings.LastIndex(x[3], "/")
+			}
+			if i < 0 {
+				return "bad-request"
+			}
+			ops = append(ops, updOp{x[0], atoi(x[1]), atoi(x[2]), x[3][:i]})
+			given = append(given, x[3][i+1:])
+		}
+	}
+	segs := make([]mseg, len(f.Segments))
+	for i, sg := range f.Segments {
+		segs[i] = mseg{nfrag: len(sg.Fragments), styp: sg.Styp != nil}
+	}
+	_, sized, st := applyUpdOps(f, ops, len(f.Moov.Traks), 1, segs)
+	if st != "" {
+		return st
+	}
+	if strings.Join(sized, ",") != strings.Join(given, ",") {
+		return "size-mismatch " + strings.Join(sized, ",")
+	}
+	existed := f.Sidx
+	if err := f.UpdateSidx(w[3] == "1", false); err != nil {
+		return "err"
+	}
+	if f.Sidx == nil {
+		return "none"
+	}
+	var z []string
+	for _, r := range f.Sidx.SidxRefs {
+		z = append(z, fmt.Sprint(r.ReferencedSize))
+	}
+	at := "-"
+	if existed == nil {
+		for i, ch := range f.Children {
+			if ch == mp4.Box(f.Sidx) {
+				at = fmt.Sprint(i)
+			}
+		}
+	}
+	sz := "-"
+	if len(z) > 0 {
+		sz = strings.Join(z, ",")
+	}
+	return fmt.Sprintf("sizes=%s first=%d at=%s", sz, f.Sidx.FirstOffset, at)
+}
+
+func isUpdMedia(t string, tree bool) bool {
+	switch t {
+	case "styp", "emsg", "prft", "moof", "mdat", "skip":
+		return true
+	case "free": // box-tree mode writes the decoded file's free box (behind the index, in front of the media): no segment's box
+		return !tree
+	}
+	return false
+}
+
+// checkUpdTiling: the written index against the written media, from the bytes of the output alone. Segment i is the
+// run of segs[i].nbox top-level media boxes following those of segment i-1; every clause is one of the statement:
+// references contiguous (each starts where the previous one ended, from the anchor), each at the first byte of its
+// segment, ending at the end of the media, durations of the reference track.
+func checkUpdTiling(fail func(kind, what, got, exp string), out []byte, segs []mseg, tree bool, wantEPT uint64) {
+	top := topLevelBoxes(out)
+	if n := len(top); n == 0 || top[n-1].start+top[n-1].size != len(out) {
+		fail("output-boxes", "the written file is not a sequence of complete top-level boxes", fmt.Sprint(len(out)), "")
+		return
+	}
+	var media []rawBox
+	var sidx *rawBox
+	for i, x := range top {
+		if isUpdMedia(x.typ, tree) {
+			media = append(media, x)
+		}
+		if x.typ == "sidx" && sidx == nil {
+			sidx = &top[i]
+		}
+	}
+	if sidx == nil {
+		fail("sidx-missing", "no top-level sidx in the written file after UpdateSidx", "", "")
+		return
+	}
+	tot := 0
+	for _, m := range segs {
+		tot += m.nbox
+	}
+	if len(media) != tot {
+		var t []string
+		for _, x := range media {
+			t = append(t, x.typ)
+		}
+		fail("media-boxes", "the written file does not consist of the boxes of the segments", fmt.Sprintf("%d: %s", len(media), strings.Join(t, " ")), fmt.Sprint(tot))
+		return
+	}
+	if tot == 0 {
+		return
+	}
+	mediaEnd := media[tot-1].start + media[tot-1].size
+	d := out[sidx.start+sidx.hl : sidx.start+sidx.size]
+	if len(d) < 24 || d[0] != 0 && len(d) < 32 {
+		fail("sidx-short", "written sidx too short", fmt.Sprint(len(d)), "")
+		return
+	}
+	p := 12
+	var ept, firstOff uint64
+	if d[0] == 0 {
+		ept, firstOff = uint64(binary.BigEndian.Uint32(d[p:])), uint64(binary.BigEndian.Uint32(d[p+4:]))
+		p += 8
+	} else {
+		ept, firstOff = binary.BigEndian.Uint64(d[p:]), binary.BigEndian.Uint64(d[p+8:])
+		p += 16
+	}
+	n := int(binary.BigEndian.Uint16(d[p+2:]))
+	p += 4
+	if len(d) < p+12*n {
+		fail("sidx-short", "written sidx shorter than its reference count demands", fmt.Sprint(len(d)), fmt.Sprint(p+12*n))
+		return
+	}
+	if n != len(segs) {
+		fail("sidx-count", "number of sidx references != number of segments", fmt.Sprint(n), fmt.Sprint(len(segs)))
+		return
+	}
+	// first byte of every segment in the written file (a segment without boxes starts where the previous one ends)
+	starts := make([]int, n+1)
+	ord := 0
+	for i := 0; i < n; i++ {
+		starts[i] = mediaEnd
+		if ord < tot {
+			starts[i] = media[ord].start
+		}
+		ord += segs[i].nbox
+	}
+	starts[n] = mediaEnd
+	off := sidx.start + sidx.size + int(firstOff)
+	for i := 0; i < n; i++ {
+		sz := int(binary.BigEndian.Uint32(d[p:]) & 0x7fffffff)
+		dur := uint64(binary.BigEndian.Uint32(d[p+4:]))
+		p += 12
+		if off != starts[i] {
+			fail("sidx-offset", fmt.Sprintf("sidx reference %d of %d does not start at the first byte of its segment in the written file", i, n), fmt.Sprint(off), fmt.Sprint(starts[i]))
+			return
+		}
+		if sz != starts[i+1]-starts[i] {
+			fail("sidx-size", fmt.Sprintf("sidx reference %d of %d: the next reference does not start at the first byte of the next segment (size != written size of the segment)", i, n), fmt.Sprint(sz), fmt.Sprint(starts[i+1]-starts[i]))
+			return
+		}
+		if dur != segs[i].dur {
+			fail("sidx-duration", fmt.Sprintf("sidx reference %d duration != summed sample durations of the reference track", i), fmt.Sprint(dur), fmt.Sprint(segs[i].dur))
+		}
+		off += sz
+	}
+	if off != mediaEnd {
+		fail("sidx-end", "sidx references do not end at the end of the written media", fmt.Sprint(off), fmt.Sprint(mediaEnd))
+	}
+	if ept != wantEPT {
+		fail("sidx-ept", "earliest presentation time wrong", fmt.Sprint(ept), fmt.Sprint(wantEPT))
+	}
+}
+
+func updAnswer(res updResult) string {
+	if res.status != "ok" {
+		return strings.TrimSpace(res.status + " " + res.got)
+	}
+	var t []string
+	for _, x := range topLevelBoxes(res.out) {
+		t = append(t, fmt.Sprintf("%s:%d", x.typ, x.size))
+		if x.typ == "sidx" {
+			t = append(t, hx(res.out[x.start:x.start+x.size]))
+		}
+	}
+	return "ok " + strings.Join(t, " ")
+}
+
+// cloneFrag: a copy of a drawn fragment that can stand anywhere but at the start of the file
+func cloneFrag(fr ffFrag) ffFrag {
+	ops := append([]fragOp(nil), fr.ops...)
+	for i := range ops {
+		ops[i].cto = 0
+	}
+	return ffFrag{emsg: fr.emsg, ops: ops}
+}
+
+// drawUpdOps: 1..3 modifications of the decoded file through the public API (first / last / any fragment of any
+// segment; several boxes at once; fragments and segments appended)
+func drawUpdOps(c *Ctx, u *updSpec) {
+	r := c.R
+	shape, ok := expectedMsegs(u.s, nil)
+	if !ok {
+		return
+	}
+	pickFrag := func(m mseg) int {
+		switch r.Intn(3) {
+		case 0:
+			return 0
+		case 1:
+			return m.nfrag - 1
+		}
+		return r.Intn(m.nfrag)
+	}
+	newFrag := func(si int) updOp {
+		var sm []string
+		for t := 1; t <= len(u.s.media); t++ {
+			if t == 1 || r.Intn(2) == 0 {
+				for q := 0; q < 1+r.Intn(3); q++ {
+					sm = append(sm, fmt.Sprintf("%d.%d.%d", t, []int{1000, 3000, 1024}[r.Intn(3)], 1+r.Intn(30)))
+				}
+			}
+		}
+		lead := []string{"-", "-", "p", "e", "pe", "ee"}[r.Intn(6)]
+		return updOp{"af", si, 0, lead + "/" + strings.Join(sm, "+")}
+	}
+	for n := 1 + r.Intn(3); n > 0; n-- {
+		si := r.Intn(len(shape))
+		if shape[si].nfrag == 0 {
+			continue
+		}
+		switch k := r.Intn(10); {
+		case k < 4:
+			var l []string
+			for q := 0; q < 1+r.Intn(3); q++ {
+				l = append(l, fmt.Sprint(r.Intn(40)))
+			}
+			u.ops = append(u.ops, updOp{"ae", si, pickFrag(shape[si]), strings.Join(l, "+")})
+		case k < 6:
+			u.ops = append(u.ops, updOp{"ac", si, pickFrag(shape[si]), fmt.Sprintf("%c.%d", "efk"[r.Intn(3)], r.Intn(30))})
+		case k < 8:
+			u.ops = append(u.ops, newFrag(si))
+			shape[si].nfrag++
+		case k == 8:
+			styp := r.Intn(2) == 0
+			u.ops = append(u.ops, updOp{"as", 0, 0, b01(styp)}, newFrag(len(shape)))
+			shape = append(shape, mseg{nfrag: 1, styp: styp})
+		default:
+			if shape[si].styp {
+				u.ops = append(u.ops, updOp{"ae", si, pickFrag(shape[si]), fmt.Sprint(r.Intn(40))})
+			} else {
+				u.ops = append(u.ops, updOp{"st", si, 0, "-"})
+				shape[si].styp = true
+			}
+		}
+	}
+}
+
+// genUpd: files of the genFF family x {decoded, assembled through File.AddChild} x {segment mode, box-tree mode} x
+// {Encode, EncodeSW} x UpdateSidx flags; in segment mode (which writes File.Segments) three quarters of them modified
+// through the public API first. The index of the written file must tile the written media.
+func genUpd(c *Ctx) {
+	r := c.R
+	for it := 0; it < c.N(320, 6000); it++ {
+		s := genFF(c)
+		if s.flagSOM && s.delim == "styp" {
+			s.flagSOM = false // two kinds of delimiters at once: styp-only segments without fragments
+		}
+		u := &updSpec{s: s, src: "dec", tree: r.Intn(2) == 0, late: r.Intn(2) == 0, sw: r.Intn(3) == 0, add: r.Intn(4) > 0, nz: r.Intn(2) == 0}
+		withOps := !u.tree && r.Intn(4) > 0
+		plain := func(delim string) {
+			s.delim, s.free, s.sidxLg, s.sidxPad, s.split, s.hier = delim, false, false, 0, nil, false
+		}
+		switch {
+		case it < 32:
+			// boundary members of "no index yet, UpdateSidx adds one": the first segment opens with each kind of box
+			// that can open one (emsg, moof, styp, styp followed by emsg) x both encode modes x {decoded, decoded
+			// with start-on-moof / by the slice reader, assembled, EncodeSW}
+			kind, variant := it%4, it/8
+			plain([]string{"none", "none", "styp", "styp"}[kind])
+			s.segs[0][0].emsg = kind == 0 || kind == 3
+			s.flagSOM = variant == 1 && kind < 2
+			if variant == 1 && kind >= 2 {
+				s.sr = true
+			}
+			u.tree, u.sw, u.add, withOps = it/4%2 == 0, variant == 3, true, false
+			if variant == 2 {
+				u.src = "api"
+			}
+		case it < 32+27:
+			// boundary members of "event message inserted with AddEmsg": first / middle / last fragment of the first /
+			// a middle / the last segment, one, two or three boxes; segment mode
+			k := it - 32
+			if s.delim == "none" {
+				plain("styp")
+			}
+			s.split, s.hier, s.flagSOM = nil, false, false
+			for len(s.segs) < 3 {
+				src := s.segs[len(s.segs)-1]
+				var sg []ffFrag
+				for _, fr := range src {
+					sg = append(sg, cloneFrag(fr))
+				}
+				s.segs = append(s.segs, sg)
+			}
+			si := []int{0, 1, len(s.segs) - 1}[k%3]
+			for len(s.segs[si]) < 3 {
+				s.segs[si] = append(s.segs[si], cloneFrag(s.segs[si][len(s.segs[si])-1]))
+			}
+			fi := []int{0, 1, len(s.segs[si]) - 1}[k/3%3]
+			u.tree, withOps = false, false
+			u.add = u.add || !strings.HasPrefix(s.delim, "sidx")
+			u.ops = []updOp{{"ae", si, fi, []string{"4", "0+9", "3+3+17"}[k/9]}}
+		}
+		if !u.add && !strings.HasPrefix(s.delim, "sidx") && r.Intn(4) > 0 {
+			u.add = true // without an index and without addIfNotExists UpdateSidx has nothing to do: keep a few
+		}
+		if u.src == "dec" && it >= 32 && (s.delim == "none" || s.delim == "styp") && !s.flagSOM && r.Intn(4) == 0 {
+			u.src = "api"
+		}
+		if withOps {
+			drawUpdOps(c, u)
+		}
+		req := u.line()
+		fail := func(kind, what, got, exp string) {
+			if u.tree && s.free && kind == "sidx-offset" {
+				// input class of its own: box-tree mode writes the box that sits between the index and the media
+				kind = "boxtree-gap-" + kind
+			}
+			c.Fail("C12-upd-"+kind, what, req, clip(got), clip(exp))
+		}
+		var res updResult
+		if p := safe(func() { res = runUpd(u) }); p != "" {
+			c.Eval("")
+			fail("panic", "panic: "+p, p, "")
+			continue
+		}
+		// model correspondence: what UpdateSidx computes from the (modified) segments — referenced sizes, first_offset,
+		// place of a new index among the top-level boxes
+		if res.in != nil && len(res.in) < 6000 && len(res.sized) == len(u.ops) {
+			o := "-"
+			if len(u.ops) > 0 {
+				var t []string
+				for k, x := range u.ops {
+					t = append(t, fmt.Sprintf("%s:%d:%d:%s/%s", x.kind, x.seg, x.frag, x.arg, res.sized[k]))
+				}
+				o = strings.Join(t, ",")
+			}
+			q := fmt.Sprintf("usidx %s %s %s %s %s", b01(s.flagSOM), b01(s.delim == "mfra"), b01(u.add), o, hx(res.in))
+			c.Case(q, execC12(q))
+		}
+		var kinds []string
+		for _, o := range u.ops {
+			kinds = append(kinds, o.kind)
+		}
+		mode := "segment"
+		if u.tree {
+			mode = "box-tree"
+		}
+		c.Count(fmt.Sprintf("upd %s %s-mode ops=%s", u.src, mode, strings.Join(kinds, "+")))
+		switch {
+		case strings.HasPrefix(res.status, "skip:"):
+			c.Eval("")
+			c.Count("upd " + res.status)
+			noteFirst(c, "upd "+res.status, req)
+		case res.status != "ok":
+			c.Eval("")
+			fail(res.status, res.what, res.got, res.exp)
+		case !res.index:
+			c.Eval("")
+			c.Count("upd no index asked for")
+		default:
+			key := ""
+			if len(res.segs) >= 2 {
+				key = req
+			}
+			c.Eval(key)
+			wantEPT := uint64(0)
+			if u.nz {
+				wantEPT = res.ept
+			}
+			checkUpdTiling(fail, res.out, res.segs, u.tree, wantEPT)
 		}
 	}
 }
